@@ -333,8 +333,9 @@ def sqrt_roles(fn_node):
     if not w:
         raise Undecided('sqrt_abacus: no while loop found')
     cond = strip(kids(w)[0])
-    if cond.get('kind') != 'BinaryOperator' or cond.get('opcode') != '!=' or strip(kids(cond)[0]).get('kind') != 'DeclRefExpr':
-        raise Undecided('sqrt_abacus: loop condition is not `P != 0`')
+    if cond.get('kind') != 'BinaryOperator' or cond.get('opcode') not in ('!=', '>') or strip(kids(cond)[0]).get('kind') != 'DeclRefExpr' \
+            or strip(kids(cond)[1]).get('value') != '0':
+        raise Undecided('sqrt_abacus: loop condition is not `P != 0` / `P > 0`')
     pwr4 = strip(kids(cond)[0])['referencedDecl']['name']
     iff = find(kids(w)[1], 'IfStmt')
     c = strip(kids(iff)[0]) if iff else {}
@@ -342,6 +343,21 @@ def sqrt_roles(fn_node):
         raise Undecided('sqrt_abacus: loop body does not start with `if( V >= ( R + P ) )`')
     v = strip(kids(c)[0])
     sm = strip(kids(c)[1])
+    if sm.get('kind') == 'DeclRefExpr':
+        # the sum may be hoisted into a local: `T trial = R + P; if( V >= trial )`
+        def find_decl(n, did):
+            if n.get('kind') == 'VarDecl' and n.get('id') == did:
+                return n
+            for c2 in kids(n):
+                r = find_decl(c2, did)
+                if r:
+                    return r
+            return None
+        d = find_decl(kids(w)[1], sm['referencedDecl']['id'])
+        init = [x for x in kids(d)] if d else []
+        sm = strip(init[-1]) if init else sm
+        while sm.get('kind') == 'InitListExpr' and kids(sm):
+            sm = strip(kids(sm)[0])
     if v.get('kind') != 'DeclRefExpr' or sm.get('kind') != 'BinaryOperator' or sm.get('opcode') != '+':
         raise Undecided('sqrt_abacus: comparison shape')
     a, b = strip(kids(sm)[0]), strip(kids(sm)[1])
